@@ -12,6 +12,9 @@
 #include "sanhook.hpp"
 #include "stream.hpp"
 #include <algorithm>
+#include <functional>
+#include <sys/wait.h>
+#include <unistd.h>
 #include <cmath>
 #include <cstdarg>
 #include <cstdio>
@@ -138,6 +141,66 @@ static double kinE(const bxdecay0::particle & p)
   return std::sqrt(p2 + m * m) - m;
 }
 
+// ---- history independence of the samplers: the pairs a dataset yields for fixed deviate streams, computed in a pristine
+// child process (forked before this process sampled anything) and again later, after other datasets went through the same
+// code in this process, must be bit-identical (state frozen by the first user of a routine would show)
+static std::map<std::string, std::string> g_pristine;
+static std::string sampler_digest(const std::string & root, const std::string & ds)
+{
+  std::string out;
+  setenv("BXDECAY0_DBD_GA_DATA_DIR", (root + "/" + ds).c_str(), 1);
+  for (int m = 0; m < 2; m++) {
+    try {
+      bxdecay0::dbd_gA g;
+      g.set_nuclide("Test");
+      g.set_process(bxdecay0::dbd_gA::PROCESS_G0);
+      g.set_shooting(m ? bxdecay0::dbd_gA::SHOOTING_REJECTION : bxdecay0::dbd_gA::SHOOTING_INVERSE_TRANSFORM_METHOD);
+      g.initialize();
+      for (uint64_t ph = 1; ph <= 16; ph++) {
+        Seq r;
+        r.phase = 1000 + ph;
+        r.horizon = 300000;
+        double e1 = -1, e2 = -1;
+        try { g.shoot_e1_e2(r, e1, e2); } catch (std::exception &) { e1 = e2 = -7; }
+        char b[96];
+        snprintf(b, sizeof b, "%.17g %.17g %zu;", e1, e2, r.i);
+        out += b;
+      }
+    } catch (std::exception &) {
+      out += "init-refused;";
+    }
+  }
+  return out;
+}
+static void pristine_digest(const std::string & root, const std::string & ds)
+{
+  int pfd[2];
+  if (pipe(pfd)) return;
+  fflush(nullptr);
+  pid_t p = fork();
+  if (p == 0) {
+    close(pfd[0]);
+    alarm(120);
+    std::string d = sampler_digest(root, ds);
+    size_t off = 0;
+    while (off < d.size()) {
+      ssize_t w = write(pfd[1], d.data() + off, d.size() - off);
+      if (w <= 0) break;
+      off += w;
+    }
+    _exit(0);
+  }
+  close(pfd[1]);
+  std::string buf;
+  char b[4096];
+  ssize_t r;
+  while ((r = read(pfd[0], b, sizeof b)) > 0) buf.append(b, r);
+  close(pfd[0]);
+  int st;
+  waitpid(p, &st, 0);
+  if (WIFEXITED(st) && WEXITSTATUS(st) == 0) g_pristine[ds] = buf;
+}
+
 static void check_dataset(const std::string & root, const std::string & ds)
 {
   Expect x;
@@ -158,7 +221,9 @@ static void check_dataset(const std::string & root, const std::string & ds)
       if (l.empty() || l[0] == '#') continue;
       row++;
       if (row < 0) continue;
-      std::vector<double> t;
+      // the decoder REPLACES the content of its output vector: one vector is handed to it for every line of the file, as a
+      // caller looping over the lines would do (it still holds the previous row)
+      static std::vector<double> t;
       try {
         bxdecay0::load_optimized_cdf_array(l, t);
       } catch (std::exception & e) {
@@ -375,9 +440,6 @@ static void check_reuse(const std::string & root, const std::string & dsA, const
 }
 
 // run fn in a forked child (an abort or crash inside the library is an outcome, not the end of the check) and merge its findings
-#include <sys/wait.h>
-#include <unistd.h>
-#include <functional>
 static void contained(const std::string & label, const std::function<void()> & fn)
 {
   int pfd[2];
@@ -486,10 +548,18 @@ int main(int argc, char ** argv)
   std::string ds;
   std::vector<std::string> all;
   while (std::getline(in, ds))
-    if (!ds.empty()) {
-      check_dataset(root, ds);
-      all.push_back(ds);
+    if (!ds.empty()) all.push_back(ds);
+  for (auto & d : all) pristine_digest(root, d); // before this process samples anything
+  for (auto & d : all) {
+    check_dataset(root, d);
+    auto it = g_pristine.find(d);
+    if (it != g_pristine.end()) {
+      g_eval++;
+      g_nontrivial++;
+      if (sampler_digest(root, d) != it->second)
+        V("history:" + d, d + ": the pairs sampled for fixed deviate streams (both methods, 16 streams) differ between a pristine process and this process after other datasets were sampled");
     }
+  }
   if (!modes_tree.empty()) contained("generator-level gA modes", [&]() { check_modes(modes_tree); });
   // consecutive datasets of the list differ in size, range or shape: both orders
   for (size_t k = 0; k + 1 < all.size(); k++) {
